@@ -193,6 +193,37 @@ func c06Case(m *Model, v *Verdict, rng *RNG, et int32, l int) {
 	if et == 16 {
 		bs = 8
 	}
+	// the last two cipher blocks before the tag exchanged (ciphertext stealing puts them in an order of its own:
+	// there is exactly one), every pair of neighbouring blocks exchanged
+	{
+		tagL := specMacLen(et)
+		end := len(ct) - tagL
+		start := 0
+		if et == 23 {
+			start, end = tagL, len(ct)
+		}
+		for p := start; p+2*bs <= end; p += bs {
+			c := append([]byte{}, ct...)
+			copy(c[p:p+bs], ct[p+bs:p+2*bs])
+			copy(c[p+bs:p+2*bs], ct[p:p+bs])
+			if string(c) != string(ct) {
+				check("neighbouring-blocks-swapped", key, usage, c, false, true)
+			}
+		}
+		if end-start >= 2*bs {
+			c := append([]byte{}, ct...)
+			copy(c[end-2*bs:end-bs], ct[end-bs:end])
+			copy(c[end-bs:end], ct[end-2*bs:end-bs])
+			if string(c) != string(ct) {
+				check("last-two-blocks-swapped", key, usage, c, true, true)
+			}
+		}
+	}
+	// octets put in front of the message (zeros are what a cipher state or an initial vector would be)
+	for _, n := range []int{1, 8, 16, 32} {
+		check("zeros-in-front", key, usage, append(make([]byte, n), ct...), n == 16, true)
+		check("octets-in-front", key, usage, append(rng.Bytes(n), ct...), false, true)
+	}
 	if len(ct) >= 3*bs {
 		c := append([]byte{}, ct...)
 		o := 0
